@@ -25,7 +25,7 @@ package ignorefiles
 //@   requires pre.r: r != nil
 //@   ghost $src String = ""
 //@   ghost $pos Int = 0
-//@   invariant loop1 C03.compile.table: $src == r.val && 0 <= $pos && $pos <= len($src) && regStr == "^" + trPrefix($src, $pos) && r.val == old(r.val)
+//@   invariant loop1 C03.compile.table: $src == r.val && 0 <= $pos && $pos <= len($src) && regStr == "(?s)^" + trPrefix($src, $pos) && r.val == old(r.val)
 //@   at-call regexp.Compile C03.compile.whole: a0 == trSpec(old(r.val))
 //@   assume-at-call regexp.Compile def.tr: tr(r.val) == trSpec(r.val)
 //@   ensures C03.compile.ok: (err == nil) == reCompiles(tr(old(r.val)))
